@@ -78,8 +78,9 @@ def step (cfg : MCfg) (_ : Unit) (line : String) : Unit × String :=
            | .write 0 => "\t#F:C23-hyd-left-after-failed-create"
            | .write _ => "\t#F:C23-hyd-left-after-failed-write"
            | _ => "\t#F:C23-hyd-left-after-failed-verify")
-        else if failed && v1Txt != "same" then "\t#F:C23-v1-files-lost-on-failure"
-        else if loadBad then "\t#F:C23-migrated-data-differs"
+        else if failed && v1Txt != "same" then
+          (if !cfg.verifyBeforeDelete || !cfg.writeBeforeDelete then "\t#F:C23-delete-before-verify" else "\t#F:C23-v1-files-lost-on-failure")
+        else if loadBad then (if !cfg.dedupeLast then "\t#F:C23-dedupe-keeps-first" else "\t#F:C23-migrated-data-differs")
         else ""
       ((), s!"res={resTxt} v1={v1Txt} hyd={hydTxt} load={loadTxt} name={nameTxt}{flag}")
     | _ => ((), "bad-op")
